@@ -117,7 +117,14 @@ def build_shape(shape, workdir, seed):
     return paths
 
 
+BINS8 = ["below", "below=", "above", "above=", "within", "=within", "within=", "=within="]
+
+
 def variant_args(v):
+    if v.startswith("b1_"):
+        return ["-r", "5", "-b", v[3:]]
+    if v.startswith("b3_"):
+        return ["-r", "0,5,10", "-b", v[3:]]
     return {"none": [], "r1": ["-r", "5"], "r3": ["-r", "0,5,10"], "q2": ["-q", "0.1,0.9"],
             "r1q1": ["-r", "5", "-q", "0.5"], "b_within": ["-r", "0,5,10", "-b", "within"],
             "agg_median": ["-agg", "median"], "b_below_eq": ["-r", "5", "-b", "below="],
@@ -134,7 +141,8 @@ def all_combos(metrics, tier):
             for m in names:
                 for ax in AXES:
                     for ty in TYPES:
-                        for v in (["none", "r1", "r3", "agg_min", "agg_q"] if sh != "prob2" else VARIANTS):
+                        for v in (["none", "r1", "r3", "agg_min", "agg_q"] if sh != "prob2" else
+                                  VARIANTS + ["b1_" + b for b in BINS8] + ["b3_" + b for b in BINS8]):
                             combos.append((m, ax, ty, v, sh))
     else:
         for m in names:
@@ -148,6 +156,10 @@ def all_combos(metrics, tier):
                 for v in ("none", "r1"):
                     combos.append((m, None, "plot", v, sh))
                     combos.append((m, None, "csv", v, sh))
+            # every bin type with one and with three thresholds (diagrams accept or reject them one by one)
+            for b in BINS8:
+                combos.append((m, None, "plot", "b1_" + b, "prob2"))
+                combos.append((m, None, "csv", "b3_" + b, "prob2"))
             # more than two files: ranking and map legends have their own code for this case
             combos.append((m, None, "maprank", "none", "five"))
             combos.append((m, None, "rank", "agg_min", "five"))
